@@ -101,7 +101,11 @@ def equal(a, b, path, diffs, fmt):
             if not (bb == int(a)):
                 diffs.append(f"{path}: integer {a!r} read back as {b!r}")
             return
-        fa, fb = float(a), float(b)
+        if fmt in ("hdf5", "h5") and isinstance(a, np.longdouble):
+            # HDF5 stores extended precision natively: nothing of the value may be lost
+            fa, fb = a, (b if isinstance(b, np.floating) else np.longdouble(b))
+        else:
+            fa, fb = float(a), float(b)
         if not (fa == fb or (math.isnan(fa) and math.isnan(fb))):
             diffs.append(f"{path}: {a!r} read back as {b!r}")
         return
@@ -265,6 +269,8 @@ def value_alphabet():
         "int-beyond-float53": 2**60 + 1,
         "list-of-large-np-ints": [np.int64(2**53 + 1), np.int64(2**62 + 3)],
         "np.longdouble": np.longdouble(0.125),
+        "np.longdouble-beyond-float64": np.longdouble(1) / np.longdouble(3),
+        "longdouble-array": np.array([1, 2], dtype=np.longdouble) / np.longdouble(3),
         "0d-array": np.array(3.5),
         "float-array": np.array([1.0, np.nan, np.inf]),
         "int-array": np.arange(4),
